@@ -95,18 +95,36 @@ class CFG:
         """Like find_path, but path-sensitive in local boolean flags: names that are only ever assigned the constants
         True/False (`committed = False ... committed = True`) are tracked along the path and tests of the form
         `flag` / `not flag` only follow the feasible branch (the guard-flag cleanup idiom)."""
+        def key(el: ast.AST) -> Optional[str]:
+            # a local name, or an attribute of the receiver (`self.committed`): a flag kept on the object behaves the same within one call,
+            # except that its value on entry is whatever the previous call left
+            if isinstance(el, ast.Name):
+                return el.id
+            if isinstance(el, ast.Attribute) and isinstance(el.value, ast.Name) and el.value.id == 'self':
+                return 'self.' + el.attr
+            return None
         assigned: Dict[str, Set[object]] = {}
         for nd in self.nodes:
             st = nd.stmt
             if nd.kind == 'stmt' and isinstance(st, ast.Assign):
                 for t in st.targets:
                     for el in (t.elts if isinstance(t, (ast.Tuple, ast.List)) else [t]):
-                        if isinstance(el, ast.Name):
+                        k_ = key(el)
+                        if k_ is not None:
                             v = st.value.value if isinstance(st.value, ast.Constant) and isinstance(st.value.value, bool) and len(st.targets) == 1 and el is t else '?'
-                            assigned.setdefault(el.id, set()).add(v)
-            elif nd.kind == 'stmt' and isinstance(st, (ast.AugAssign, ast.AnnAssign)) and isinstance(st.target, ast.Name):
-                assigned.setdefault(st.target.id, set()).add('?')
+                            assigned.setdefault(k_, set()).add(v)
+            elif nd.kind == 'stmt' and isinstance(st, (ast.AugAssign, ast.AnnAssign)) and key(st.target) is not None:
+                assigned.setdefault(key(st.target), set()).add('?')       # type: ignore[arg-type]
         flags = {k for k, v in assigned.items() if v <= {True, False}}
+        # attribute flags that this function only tests (or only sets to constants): unknown on entry
+        tested_attrs = set()
+        for nd in self.nodes:
+            if nd.kind == 'test':
+                t_ = nd.stmt.operand if isinstance(nd.stmt, ast.UnaryOp) and isinstance(nd.stmt.op, ast.Not) else nd.stmt
+                k_ = key(t_) if isinstance(t_, ast.Attribute) else None
+                if k_ is not None and assigned.get(k_, set()) <= {True, False}:
+                    tested_attrs.add(k_)
+        flags |= tested_attrs
         # a local assigned exactly once from a computed value (`commit = exc_type is None`) is unknown but *fixed*: the first test of it on a
         # path may go either way, every later test of it on that path goes the same way
         n_assign: Dict[str, int] = {}
@@ -136,10 +154,10 @@ class CFG:
                 return path
             nd = self.nodes[n]
             newval = val
-            if nd.kind == 'stmt' and isinstance(nd.stmt, ast.Assign) and len(nd.stmt.targets) == 1 and isinstance(nd.stmt.targets[0], ast.Name) \
-                    and nd.stmt.targets[0].id in flags:
+            if nd.kind == 'stmt' and isinstance(nd.stmt, ast.Assign) and len(nd.stmt.targets) == 1 and key(nd.stmt.targets[0]) in flags \
+                    and isinstance(nd.stmt.value, ast.Constant):
                 d = dict(val)
-                d[nd.stmt.targets[0].id] = nd.stmt.value.value
+                d[key(nd.stmt.targets[0])] = nd.stmt.value.value      # type: ignore[index]
                 newval = frozenset(d.items())
             elif nd.kind == 'stmt' and isinstance(nd.stmt, ast.Assign) and len(nd.stmt.targets) == 1 and isinstance(nd.stmt.targets[0], ast.Name) \
                     and nd.stmt.targets[0].id in fixed:
@@ -151,10 +169,12 @@ class CFG:
             if nd.kind == 'test':
                 t = nd.stmt
                 cur_vals = dict(newval)
-                if isinstance(t, ast.Name) and t.id in flags and t.id in cur_vals:
-                    want = 'true' if cur_vals[t.id] else 'false'
-                elif isinstance(t, ast.UnaryOp) and isinstance(t.op, ast.Not) and isinstance(t.operand, ast.Name) and t.operand.id in flags and t.operand.id in cur_vals:
-                    want = 'false' if cur_vals[t.operand.id] else 'true'
+                neg_ = isinstance(t, ast.UnaryOp) and isinstance(t.op, ast.Not)
+                kt = key(t.operand if neg_ else t)      # type: ignore[union-attr]
+                if kt is not None and kt in flags and kt in cur_vals:
+                    want = ('false' if cur_vals[kt] else 'true') if neg_ else ('true' if cur_vals[kt] else 'false')
+                elif kt is not None and kt in tested_attrs:
+                    choose = (kt, not neg_)            # value on entry unknown: either branch, then consistently
                 elif isinstance(t, ast.Name) and t.id in fixed:
                     if t.id in cur_vals:
                         want = 'true' if cur_vals[t.id] else 'false'
